@@ -332,6 +332,22 @@ def key_alphabet_scenarios(rng, n):
   return out, cnt
 
 
+def override_sequences():
+  """Sequences of overrides: equal literal texts must give independent values."""
+  out = []
+  cfg = fdl.Config(H.f1, s1=fdl.Config(H.g4, s1=0), s2=0, s3=0)
+  other = fdl.Config(H.f1, s1=0)
+  for assign in ('s2=[1, 2]', 's3=[1, 2]', "s1.s1={'k': [3]}", "s1.s2={'k': [3]}"):
+    utils.set_value(cfg, assign)
+  utils.set_value(other, 's1=[1, 2]')
+  utils.set_value(cfg, 's2[0]=9')
+  utils.set_value(cfg, "s1.s1['k']=[4]")
+  if cfg.s3 != [1, 2] or other.s1 != [1, 2] or cfg.s1.s2 != {'k': [3]} or cfg.s2 != [9, 2]:
+    out.append(({'clause': 'override-changes-other-leaves', 'key': 'sequence'},
+                f's2={cfg.s2} s3={cfg.s3} other.s1={other.s1} s1.s2={cfg.s1.s2}'))
+  return out, 1
+
+
 def main():
   v = common.Verdict(PROP, 'model_checking')
   quick = common.tier() == 'quick'
@@ -370,7 +386,8 @@ def main():
     cs, ncs = config_str_roundtrip(rng, 100 if quick else 1000)
     ce, nce = call_expressions()
     ka, nka = key_alphabet_scenarios(rng, 150 if quick else 1500)
-    for f, msg in cs + ce + ka:
+    osq, nosq = override_sequences()
+    for f, msg in cs + ce + ka + osq:
       v.mismatch(f, {'message': msg})
   v.coverage.update({
       'states': res.distinct + rf.distinct, 'transitions': res.generated + rf.generated,
